@@ -468,24 +468,8 @@ func (ex *Exec) lookup(st *State, fr *Frame, x *ssa.Lookup) *forkReq {
 	switch m := v.(type) {
 	case *StrV:
 		// s[i] on strings
-		idx, ok := ex.constInt(key)
-		if !ok {
-			panic(unsupported("string index with symbolic index"))
-		}
-		bad := []*smt.Term{}
-		res := ex.strInt(m, "index", 8, func(str string) uint64 {
-			if idx < 0 || idx >= len(str) {
-				return 0
-			}
-			return uint64(str[idx])
-		})
-		for _, a := range m.Alts {
-			l, _ := a.lit()
-			if idx < 0 || idx >= len(l) {
-				bad = append(bad, ex.guard(a.G))
-			}
-		}
-		if ex.mayPanic(st, x, "string index out of range", s.Or(bad...)) {
+		res, dead := ex.strIndex(st, x, m, key)
+		if dead {
 			return nil
 		}
 		fr.Env[x] = res
@@ -791,4 +775,42 @@ func (ex *Exec) strSlice(st *State, fr *Frame, x *ssa.Slice, sv *StrV) {
 	}
 	fr.Env[x] = ex.normStr(alts)
 	fr.IP++
+}
+
+// strIndex evaluates s[i] for a concrete index (shared by Index and Lookup).
+func (ex *Exec) strIndex(st *State, x ssa.Instruction, m *StrV, key Value) (*smt.Term, bool) {
+	s := ex.st
+	idx, ok := ex.constInt(key)
+	if !ok {
+		panic(unsupported("string index with symbolic index"))
+	}
+	bad := []*smt.Term{}
+	var res *smt.Term
+	for i := len(m.Alts) - 1; i >= 0; i-- {
+		a := m.Alts[i]
+		l, isLit := a.lit()
+		if !isLit {
+			if len(a.P) > 0 && a.P[0].isLit() && idx >= 0 && idx < len(a.P[0].Lit) {
+				l = a.P[0].Lit
+			} else {
+				panic(unsupported("string index into rope " + piecesString(a.P)))
+			}
+		}
+		var b uint64
+		if idx < 0 || idx >= len(l) {
+			bad = append(bad, ex.guard(a.G))
+		} else {
+			b = uint64(l[idx])
+		}
+		v := s.BV(b, 8)
+		if res == nil {
+			res = v
+		} else {
+			res = s.Ite(ex.guard(a.G), v, res)
+		}
+	}
+	if ex.mayPanic(st, x, "string index out of range", s.Or(bad...)) {
+		return nil, true
+	}
+	return res, false
 }
